@@ -156,8 +156,50 @@ def _clear_all(bitstring):
             pass
 
 
+_LIVE_TABLES = r"""
+import sys, json
+sys.path.insert(0, %r)
+import bitstring
+classes = []
+for mname, mod in list(sys.modules.items()):
+    if mname == 'bitstring' or mname.startswith('bitstring.'):
+        for v in vars(mod).values():
+            if isinstance(v, type) and getattr(v, '__module__', '').startswith('bitstring') and v not in classes:
+                classes.append(v)
+def snap():
+    out = {}
+    for c in classes:
+        for a, v in vars(c).items():
+            f = getattr(v, '__func__', v)
+            if callable(f):
+                out[(c.__name__, a)] = (id(f), getattr(f, '__qualname__', type(f).__name__))
+    return out
+a0 = snap(); bitstring.options.lsb0 = True
+a1 = snap(); bitstring.options.lsb0 = False
+a2 = snap()
+rows = lambda new, old: [[list(k), new[k][1]] for k in new if new[k] != old.get(k)]
+print(json.dumps({'lsb0_methods': rows(a1, a0), 'msb0_methods': rows(a2, a1)}))
+"""
+
+
+def _tables_live(repo_path: str) -> dict:
+    """Fallback when `set_lsb0` no longer has the two dict literals: EVALUATE the re-binding in a fresh interpreter
+    (which class attributes change when lsb0 is switched on, and which when it is switched off again)."""
+    import subprocess, json
+    r = subprocess.run([sys.executable, "-c", _LIVE_TABLES % repo_path], capture_output=True, text=True, timeout=120)
+    if r.returncode != 0:
+        raise RuntimeError("live table extraction failed: " + r.stderr[-500:])
+    j = json.loads(r.stdout.strip().splitlines()[-1])
+    return {k: [((c, a), m) for (c, a), m in v] for k, v in j.items()}
+
+
 def extract(repo_path: str) -> dict:
-    data = _tables_from_source(os.path.join(repo_path, "bitstring", "bitstring_options.py"))
+    try:
+        data = _tables_from_source(os.path.join(repo_path, "bitstring", "bitstring_options.py"))
+        data["tables_from"] = "source"
+    except (ValueError, SyntaxError):
+        data = _tables_live(repo_path)
+        data["tables_from"] = "evaluation"
     data["cache_size_constants"] = _cache_size_constants(repo_path)
     data.update(_live(repo_path))
     return data
@@ -175,7 +217,8 @@ def render(data: dict) -> str:
         return "[" + ", ".join("(%s, %d)" % (_lean_str(n), v) for n, v in rows) + "]"
     b = lambda x: "true" if x else "false"
     return ("/-\n  GENERATED by harness/extract_C09.py from the working tree - do not edit.\n"
-            "  Method tables of `Options.set_lsb0` (bitstring/bitstring_options.py, read with `ast`), the CACHE_SIZE\n"
+            "  Method tables of `Options.set_lsb0` (bitstring/bitstring_options.py, read with `ast`; by evaluating the\n"
+            "  re-binding in a fresh interpreter if the source no longer has the two dict literals), the CACHE_SIZE\n"
             "  constants, the live `maxsize` of the eight lru_caches, and two evaluated facts about the option setters.\n-/\n"
             "namespace BM.Gen\n\n"
             "/-- `lsb0_methods`: ((class, attribute), method bound when lsb0 is switched on). -/\n"
